@@ -319,6 +319,7 @@ var specC35 = vstat.Spec[c35Case]{
 	Assumptions: []string{"stripping enabled while the match came only from a regex/list/no filter is classified, not asserted (the statement covers 'the matched prefix')"},
 	Gen:         genC35,
 	Check:       checkC35,
+	Inflight:    true,
 }
 
 func TestC35(t *testing.T)       { vstat.Check(t, specC35) }
